@@ -173,12 +173,13 @@ class Ed25519Key(PKey):
             # key...
             signing_key = nacl.signing.SigningKey(key_data[:32])
             # Verify that all the public keys are the same...
-            assert (
+            if not (
                 signing_key.verify_key.encode()
                 == public
                 == public_keys[i]
                 == key_data[32:]
-            )
+            ):
+                raise SSHException("Invalid key")
             signing_keys.append(signing_key)
             # Comment, ignore.
             message.get_binary()
